@@ -92,6 +92,9 @@ func (u *Unmarshaler) fillMap(fieldType reflect.Type, value reflect.Value,
 		return errValueNotSettable
 	}
 
+	// the field may be a pointer to a map
+	fieldType = Deref(fieldType)
+	value = ensureValue(value)
 	fieldKeyType := fieldType.Key()
 	fieldElemType := fieldType.Elem()
 	targetValue, err := u.generateMap(fieldKeyType, fieldElemType, mapValue, fullName)
@@ -134,6 +137,8 @@ func (u *Unmarshaler) fillSlice(fieldType reflect.Type, value reflect.Value,
 		return errValueNotSettable
 	}
 
+	// the field may be a pointer to a slice
+	fieldType = Deref(fieldType)
 	refValue := reflect.ValueOf(mapValue)
 	if refValue.Kind() != reflect.Slice {
 		return newTypeMismatchErrorWithHint(fullName, reflect.Slice.String(), refValue.Type().String())
@@ -142,6 +147,7 @@ func (u *Unmarshaler) fillSlice(fieldType reflect.Type, value reflect.Value,
 		return nil
 	}
 
+	value = ensureValue(value)
 	baseType := fieldType.Elem()
 	dereffedBaseType := Deref(baseType)
 	dereffedBaseKind := dereffedBaseType.Kind()
@@ -201,6 +207,8 @@ func (u *Unmarshaler) fillSliceFromString(fieldType reflect.Type, value reflect.
 		return errUnsupportedType
 	}
 
+	fieldType = Deref(fieldType)
+	value = ensureValue(value)
 	baseFieldType := fieldType.Elem()
 	baseFieldKind := baseFieldType.Kind()
 	conv := reflect.MakeSlice(reflect.SliceOf(baseFieldType), len(slice), cap(slice))
@@ -353,11 +361,11 @@ func (u *Unmarshaler) generateMap(keyType, elemType reflect.Type, mapValue any,
 		switch dereffedElemKind {
 		case reflect.Slice:
 			target := reflect.New(dereffedElemType)
-			if err := u.fillSlice(elemType, target.Elem(), keythData, mapFullName); err != nil {
+			if err := u.fillSlice(dereffedElemType, target.Elem(), keythData, mapFullName); err != nil {
 				return emptyValue, err
 			}
 
-			targetValue.SetMapIndex(key, target.Elem())
+			SetMapIndexValue(elemType, targetValue, key, target.Elem())
 		case reflect.Struct:
 			keythMap, ok := keythData.(map[string]any)
 			if !ok {
@@ -376,12 +384,12 @@ func (u *Unmarshaler) generateMap(keyType, elemType reflect.Type, mapValue any,
 				return emptyValue, errTypeMismatch
 			}
 
-			innerValue, err := u.generateMap(elemType.Key(), elemType.Elem(), keythMap, mapFullName)
+			innerValue, err := u.generateMap(dereffedElemType.Key(), dereffedElemType.Elem(), keythMap, mapFullName)
 			if err != nil {
 				return emptyValue, err
 			}
 
-			targetValue.SetMapIndex(key, innerValue)
+			SetMapIndexValue(elemType, targetValue, key, innerValue)
 		default:
 			switch v := keythData.(type) {
 			case bool:
@@ -389,7 +397,7 @@ func (u *Unmarshaler) generateMap(keyType, elemType reflect.Type, mapValue any,
 					return emptyValue, errTypeMismatch
 				}
 
-				targetValue.SetMapIndex(key, reflect.ValueOf(v))
+				SetMapIndexValue(elemType, targetValue, key, reflect.ValueOf(v))
 			case string:
 				if dereffedElemKind != reflect.String {
 					return emptyValue, errTypeMismatch
@@ -400,14 +408,14 @@ func (u *Unmarshaler) generateMap(keyType, elemType reflect.Type, mapValue any,
 					return emptyValue, errTypeMismatch
 				}
 
-				targetValue.SetMapIndex(key, val)
+				SetMapIndexValue(elemType, targetValue, key, val)
 			case json.Number:
 				target := reflect.New(dereffedElemType)
 				if err := setValueFromString(dereffedElemKind, target.Elem(), v.String()); err != nil {
 					return emptyValue, err
 				}
 
-				targetValue.SetMapIndex(key, target.Elem())
+				SetMapIndexValue(elemType, targetValue, key, target.Elem())
 			default:
 				if dereffedElemKind != keythValue.Kind() {
 					return emptyValue, errTypeMismatch
